@@ -36,17 +36,20 @@ Definition gcase_check_t (e : env) (c : gcase) : bool :=
   | GDec (sid, h, obs) => dec_check e (sid, h, obs) || fuel_excuse e sid (decode e sid (unhex h))
   | GReuse (sid, prior, h, obs) => reuse_check e (sid, prior, h, obs) || fuel_excuse e sid (decode_into e sid prior (unhex h))
   | GHuge sid h => huge_check e sid h || fuel_excuse e sid (decode e sid (unhex h))
+  | GSlice n h o => slice_check n h o
   end.
 
 (* on struct types that fit the model the lenient evaluators are the strict ones *)
 Lemma fuel_excuse_fits e sid r : model_fits e sid = true -> fuel_excuse e sid r = false.
 Proof. intros H. unfold fuel_excuse. destruct r; try reflexivity. now rewrite H. Qed.
-Lemma gcase_check_t_strict e c : (match c with GEnc (sid, _, _) | GDec (sid, _, _) | GReuse (sid, _, _, _) | GHuge sid _ => model_fits e sid end) = true ->
+Lemma gcase_check_t_strict e c : (match c with GEnc (sid, _, _) | GDec (sid, _, _) | GReuse (sid, _, _, _) | GHuge sid _ => model_fits e sid
+                                  | GSlice _ _ _ => true end) = true ->
   gcase_check_t e c = true -> gcase_check e c = true.
 Proof.
-  destruct c as [[[sid h] obs]|[[sid h] obs]|[[[sid prior] h] obs]|sid h]; cbn [gcase_check_t gcase_check]; intros Hf H.
+  destruct c as [[[sid h] obs]|[[sid h] obs]|[[[sid prior] h] obs]|sid h|n h o]; cbn [gcase_check_t gcase_check]; intros Hf H.
   - unfold c03_check_t in H. rewrite fuel_excuse_fits in H by assumption. cbn [orb] in H. apply andb_true_iff in H. tauto.
   - rewrite fuel_excuse_fits, orb_false_r in H by assumption. exact H.
   - rewrite fuel_excuse_fits, orb_false_r in H by assumption. exact H.
   - rewrite fuel_excuse_fits, orb_false_r in H by assumption. exact H.
+  - exact H.
 Qed.
